@@ -56,6 +56,8 @@ class Ctx:
         # self-test runs against a scratch copy (VERIF_REPO set) must not overwrite the real evidence / replays
         self.outroot = VERIF if self.repo == "/repo" else os.path.join(VERIF, ".mut")
         self.replays = os.path.join(self.outroot, "replays", pid)
+        if not replay:
+            shutil.rmtree(self.replays, ignore_errors=True)     # replay files of earlier runs would only mislead
         self.t0 = time.time()
         self.rng = random.Random(seed)
         self.violations = []      # (key, replay_path, text)
@@ -197,7 +199,7 @@ class Ctx:
 
     # -------------------------------------------------------------------- TLC
     def tlc(self, module, cfg=None, workers=8, simulate=None, depth=None, timeout=600, env=None, extra=(),
-            heap="4g", coverage=False, deque=False, count=True, tag=None):
+            heap="4g", coverage=False, deque=False, count=True, tag=None, jvm=()):
         """Run TLC on spec/<module>.tla with spec/<cfg>.cfg. simulate=N -> -simulate num=N."""
         spec = os.path.join(VERIF, "spec")
         cfg = cfg or module
@@ -206,7 +208,7 @@ class Ctx:
         tag = tag or cfg
         meta = os.path.join(self.work, "tlc-" + tag + "-" + str(len(self.tlc_runs)))
         shutil.rmtree(meta, ignore_errors=True)
-        jopts = ["-XX:+UseParallelGC", "-Xmx" + heap]
+        jopts = ["-XX:+UseParallelGC", "-Xmx" + heap] + list(jvm)
         if deque:
             jopts.append("-Dtlc2.tool.queue.IStateQueue=StateDeque")
         cmd = ["java"] + jopts + ["-cp", TLA_JAR + ":" + TLA_DEPS, "tlc2.TLC", "-workers", str(workers), "-metadir", meta,
@@ -258,7 +260,8 @@ class Ctx:
                 except Exception as ex:
                     raise Infra("cannot decode BEH line: %s (%s)" % (line[:200], ex))
         if r.rc in (150, 151, 152, 153, 1, 2) or "Parsing or semantic analysis failed" in r.out or (r.rc not in (0, 10, 11, 12, 13)):
-            raise Infra("TLC infrastructure failure rc=%s on %s/%s:\n%s" % (r.rc, module, cfg, r.out[-3000:]))
+            first = "\n".join(l for l in r.out.splitlines() if l.startswith("Error:") or "Attempted" in l or "***" in l)[:1500]
+            raise Infra("TLC infrastructure failure rc=%s on %s/%s:\n%s\n...\n%s" % (r.rc, module, cfg, first, r.out[-2500:]))
         if count:
             self.states += r.distinct
             self.transitions += r.generated
